@@ -1,5 +1,5 @@
 from vdriver import Group
-META = {'level': 'other'}
+META = {'level': 'other', 'assumptions': ['groups backoff.*: the function contract is checked by assume-requires / call / assert-ensures on static objects (verbatim clause text emitted by the lowering), not through goto-instrument dfcc enforcement; the frame is asserted explicitly', 'groups backoff.*: configuration values are bounded (initial back-off <= 2^24 s, maximum and success interval <= 2^32 s) so that seconds fit into int64 nanoseconds']}
 def groups(tier):
     K = dict(unit='fetch_slots', harness='C24/inflight.c', unwind=3, kind='skeleton', checks=[], skeleton=True, timeout=600, backend=['sat', 'cadical'],
              replay='reannounce', bound='control-flow skeleton (E3) with the in_flight facet; loops unrolled twice')
